@@ -9,13 +9,16 @@ Three monitors over specs (cdef + module name + C source, a pure function of a s
          st_mtime_ns / st_ino and the "(already up-to-date)" message, plus an icontract
          postcondition on recompiler._make_c_or_py_source active for every workload.
   crash  fault enumeration of the write path with old content O in place and N != O
-         to be written: os._exit / KeyboardInterrupt at every sys.monitoring LINE event
-         of _make_c_or_py_source, exit / ENOSPC after j bytes of a 1-byte-per-write()
-         file, failing open, failing rename (the unlink+rename fallback); and SIGKILL
-         on entry of every syscall of the write window (strace inject, parent side).
+         to be written, in four scenarios (replace, no old file, rename fails once /
+         always = the unlink+rename fallback): the target is inspected at every
+         sys.monitoring LINE event of _make_c_or_py_source (what a process dying there
+         leaves behind; a sample is cross-checked with a forked os._exit), an
+         asynchronous exception is raised at every LINE event, a short-write file stops
+         after j bytes (inspect / os._exit / ENOSPC), open fails; and, parent side,
+         SIGKILL on entry of every syscall of the write window (strace inject).
          After each fault the target must be exactly O or exactly N.
 """
-import os, sys, io, re, json, random, shutil, hashlib, errno, subprocess, contextlib
+import os, sys, io, re, random, shutil, hashlib, errno, subprocess, contextlib
 import concurrent.futures as cf
 from vlib import core, build, gen_cdef as GC
 
@@ -818,8 +821,8 @@ def det_diff(ctx, seed, runs):
 def run(ctx):
     rng = ctx.rng('gen')
     exe = shutil.which('strace')
-    n_det, n_idem = ctx.scale(400, 2400), ctx.scale(400, 2400)
-    n_crash, n_strace = ctx.scale(8, 50), ctx.scale(1, 6)
+    n_det, n_idem = ctx.scale(320, 2400), ctx.scale(320, 2400)
+    n_crash, n_strace = ctx.scale(6, 50), ctx.scale(1, 6)
     seeds = [rng.getrandbits(40) for _ in range(n_det)]
     rand_hs = str(rng.randrange(4, 2 ** 32))
     settings = [('h0', '0', 1), ('h1', '1', 2), ('h2', '2', 3), ('h3', '3', 4), ('hr', rand_hs, 5),
